@@ -5,7 +5,7 @@ built in a symlink-free temporary tree; fetches are observed with sys.addauditho
 Exhaustive over the catalogue.
 """
 import io, itertools, os, shutil, sys, tempfile, urllib.request
-from .common import result
+from .common import pmap, result
 XS = 'xmlns:xs="http://www.w3.org/2001/XMLSchema"'
 INC = f'<xs:schema {XS}><xs:element name="x"/></xs:schema>'
 IMP = f'<xs:schema {XS} targetNamespace="urn:i"><xs:element name="y"/></xs:schema>'
@@ -27,6 +27,43 @@ def allowed(mode, kind, path, base):
     p = os.path.realpath(path) if kind == 'open' else path
     inside = kind == 'open' and (p == base or p.startswith(base + os.sep))
     return {'all': True, 'none': False, 'remote': kind != 'open', 'local': kind == 'open', 'sandbox': inside}[mode]
+
+
+def eval_xmlns_hint(_):
+    """the hint of an inner element names a namespace that the META-SCHEMA owns (the XML namespace): nothing outside the allowed class is fetched, and the class-level
+    meta-schema is not extended by an instance"""
+    import xmlschema
+    from xmlschema.exceptions import XMLSchemaException
+    if not _hooked[0]: sys.addaudithook(_hook); _hooked[0] = True
+    root = os.path.realpath(tempfile.mkdtemp(prefix='verif_c12x_')); _root[0] = root
+    base = os.path.join(root, 'sand'); evil = os.path.join(root, 'sand_evil'); fails = []; n = 0
+    try:
+        xns = 'http://www.w3.org/XML/1998/namespace'
+        for d_ in (base, evil): os.makedirs(d_); open(os.path.join(d_, 'xmlns.xsd'), 'w').write(f'<xs:schema {XS} targetNamespace="{xns}"><xs:attribute name="evil" type="xs:int"/></xs:schema>')
+        main = (f'<xs:schema {XS}><xs:element name="r"><xs:complexType><xs:sequence><xs:element name="c"><xs:complexType><xs:sequence><xs:any minOccurs="0" processContents="lax"/></xs:sequence>'
+                f'<xs:anyAttribute processContents="skip"/></xs:complexType></xs:element></xs:sequence></xs:complexType></xs:element></xs:schema>')
+        SP = {'inside': 'xmlns.xsd', 'evil-rel': '../sand_evil/xmlns.xsd', 'evil-abs': os.path.join(evil, 'xmlns.xsd'), 'evil-url': 'file://' + os.path.join(evil, 'xmlns.xsd'), 'remote': 'http://example.invalid/xmlns.xsd'}
+        for mode, (sp, loc) in itertools.product(['sandbox', 'none', 'remote', 'local', 'all'], SP.items()):
+            n += 1; _events.clear(); outcome = 'ok'
+            docp = os.path.join(base, 'doc.xml')
+            open(docp, 'w').write(f'<r xmlns:xsi="http://www.w3.org/2001/XMLSchema-instance"><c xsi:schemaLocation="{xns} {loc}" xml:evil="x"/></r>')
+            try:
+                opener = urllib.request.build_opener(Stub)
+                sch = xmlschema.XMLSchema10(main, allow=mode, opener=opener, base_url=base)
+                list(sch.iter_errors(xmlschema.XMLResource(docp, allow='all'), use_location_hints=True))
+            except XMLSchemaException as e: outcome = type(e).__name__
+            except Exception as e: outcome = 'OTHER:' + type(e).__name__ + ': ' + str(e)[:80]
+            own = {os.path.realpath(docp)}
+            viol = [(k, p_) for k, p_ in _events if not (k == 'open' and p_ in own) and not allowed(mode, 'open' if k == 'open' else 'remote', p_, base)]
+            polluted = '{%s}evil' % xns in xmlschema.XMLSchema10.meta_schema.maps.attributes
+            if polluted: viol.append(('meta-schema', 'the class-level meta-schema now declares xml:evil'))
+            if viol or outcome.startswith('OTHER'):
+                fails.append(dict(case=dict(mode=mode, mechanism='nested-hint-xml-namespace', spelling=sp, location=loc.replace(root, '<root>')),
+                                  observed=dict(outcome=outcome, fetched=[(k, p_.replace(root, '<root>')) for k, p_ in viol]), required='no fetch outside the allowed class; the meta-schema is not extended'))
+            if polluted: break          # the process is damaged from here on
+        return n, fails
+    finally:
+        _root[0] = None; shutil.rmtree(root, ignore_errors=True)
 
 
 def run(tier, seed, open_findings):
@@ -54,8 +91,12 @@ def run(tier, seed, open_findings):
         combos = [(m_, me, sl, True) for m_, me, sl in itertools.product(['all', 'none', 'local', 'remote', 'sandbox'], ['include', 'import', 'redefine', 'hint', 'locations'], SPELL.items())]
         # the sandbox root taken from the location of the main schema (no explicit base_url): every reference mechanism must inherit it
         combos += [('sandbox', me, sl, False) for me, sl in itertools.product(['include', 'import', 'redefine', 'hint', 'locations'], SPELL.items())]
+        # the same references with the schema built through the settings route: XMLSchema.from_settings(settings, source, allow=...) - a per-call argument overrides the settings object
+        combos += [(m_, me + '@from_settings', sl, wb) for m_, me, sl, wb in combos if me in ('include', 'import') and sl[0] in ('inside', 'evil-rel', 'evil-abs', 'evil-url', 'sibling-rel', 'url-dots-out', 'remote')]
+        from xmlschema.settings import SchemaSettings
         for mode, mech, (sp, loc), with_base in combos:
             n += 1; bkw = dict(base_url=base) if with_base else {}
+            mech_full, mech = mech, mech.split('@')[0]
             tag = {'include': f'<xs:include schemaLocation="{loc}"/>', 'redefine': f'<xs:redefine schemaLocation="{loc}"/>', 'hint': '', 'locations': '',
                    'import': f'<xs:import namespace="urn:i" schemaLocation="{loc.replace("inc.xsd", "imp.xsd")}"/>'}[mech]
             open(main, 'w').write(f'<xs:schema {XS}>{tag}<xs:element name="r"><xs:complexType><xs:sequence><xs:any minOccurs="0" processContents="lax"/></xs:sequence>'
@@ -65,7 +106,8 @@ def run(tier, seed, open_findings):
                 opener = urllib.request.build_opener(Stub)
                 # 'locations': the location comes in through the locations argument; a location refused when the schema is built is asked for again when a wildcard meets the namespace
                 lkw = dict(locations={'urn:i': loc.replace('inc.xsd', 'imp.xsd')}) if mech == 'locations' else {}
-                s = xmlschema.XMLSchema10(main, allow=mode, opener=opener, **bkw, **lkw)
+                if mech_full.endswith('@from_settings'): s = xmlschema.XMLSchema10.from_settings(SchemaSettings(), main, allow=mode, opener=opener, **bkw, **lkw)
+                else: s = xmlschema.XMLSchema10(main, allow=mode, opener=opener, **bkw, **lkw)
                 if mech in ('hint', 'locations'):
                     hint = f' xsi:schemaLocation="urn:i {loc.replace("inc.xsd", "imp.xsd")}"' if mech == 'hint' else ''
                     doc = (f'<r xmlns:xsi="http://www.w3.org/2001/XMLSchema-instance" xmlns:i="urn:i"{hint}><i:y/></r>')
@@ -78,7 +120,7 @@ def run(tier, seed, open_findings):
             viol = [(k, p) for k, p in fetched if not allowed(mode, 'open' if k == 'open' else 'remote', p, base)]
             if any(k == 'open' and p in own for k, p in _events) and not allowed(mode, 'open', main, base): viol.append(('open', 'MAIN'))
             if viol or outcome.startswith('OTHER'):
-                fails.append(dict(case=dict(mode=mode, mechanism=mech, spelling=sp, location=loc.replace(root, '<root>'), explicit_base_url=with_base), observed=dict(outcome=outcome, fetched=[(k, p.replace(root, '<root>')) for k, p in viol]),
+                fails.append(dict(case=dict(mode=mode, mechanism=mech_full, spelling=sp, location=loc.replace(root, '<root>'), explicit_base_url=with_base), observed=dict(outcome=outcome, fetched=[(k, p.replace(root, '<root>')) for k, p in viol]),
                                   required='no fetch outside the allowed class; only library exceptions'))
         # the main schema given as something that has no location of its own (a parsed tree, an open file, a text stream) under allow='sandbox' without a base_url: there is
         # no sandbox root to derive, so nothing outside the data's directory may be fetched through it (the library refuses such a resource)
@@ -113,6 +155,29 @@ def run(tier, seed, open_findings):
                 if viol or outcome.startswith('OTHER'):
                     fails.append(dict(case=dict(mode='sandbox', mechanism=mech, spelling=sp, location=loc.replace(root, '<root>'), source_kind=sk, explicit_base_url=False),
                                       observed=dict(outcome=outcome, fetched=[(k, p_.replace(root, '<root>')) for k, p_ in viol]), required='no fetch outside the allowed class; only library exceptions'))
+        # the hint on an element BELOW the root (imported while the element is validated), the document given as something without a location: text, a resource built from text
+        # with the permissive default, parsed trees; the schema was created with allow='sandbox' and its own location is the only sandbox root there is
+        for mode, (sp, loc) in itertools.product(['sandbox', 'none', 'local', 'remote'], [(k, v) for k, v in SPELL.items() if k in ('inside-abs', 'inside', 'evil-abs', 'evil-url', 'evil-rel', 'sibling-rel', 'url-dots-out', 'remote')]):
+            open(main, 'w').write(f'<xs:schema {XS}><xs:element name="r"><xs:complexType><xs:sequence><xs:element name="c"><xs:complexType><xs:sequence><xs:any minOccurs="0" processContents="lax"/></xs:sequence>'
+                                  f'<xs:anyAttribute processContents="skip"/></xs:complexType></xs:element></xs:sequence></xs:complexType></xs:element></xs:schema>')
+            text = f'<r xmlns:xsi="http://www.w3.org/2001/XMLSchema-instance" xmlns:i="urn:i"><c xsi:schemaLocation="urn:i {loc.replace("inc.xsd", "imp.xsd")}"><i:y/></c></r>'
+            kinds = {'resource-from-text': lambda: xmlschema.XMLResource(text), 'element': lambda: PET.fromstring(text), 'etree': lambda: PET.ElementTree(PET.fromstring(text)),
+                     'stringio-resource': lambda: xmlschema.XMLResource(io.StringIO(text)), 'lazy-resource-from-text': lambda: xmlschema.XMLResource(text, lazy=True)}
+            for sk, mk in kinds.items():
+                n += 1; _events.clear(); outcome = 'ok'
+                try:
+                    opener = urllib.request.build_opener(Stub)
+                    sch = xmlschema.XMLSchema10(main, allow=mode, opener=opener) if mode != 'none' and mode != 'remote' else xmlschema.XMLSchema10(open(main).read(), allow=mode, opener=opener, base_url=base)
+                    list(sch.iter_errors(mk(), use_location_hints=True))
+                except XMLSchemaException as e: outcome = type(e).__name__
+                except Exception as e: outcome = 'OTHER:' + type(e).__name__ + ': ' + str(e)[:80]
+                own = {os.path.realpath(main)}
+                viol = [(k, p_) for k, p_ in _events if not (k == 'open' and p_ in own) and not allowed(mode, 'open' if k == 'open' else 'remote', p_, base)]
+                if viol or outcome.startswith('OTHER'):
+                    fails.append(dict(case=dict(mode=mode, mechanism='nested-hint', spelling=sp, location=loc.replace(root, '<root>'), source_kind=sk),
+                                      observed=dict(outcome=outcome, fetched=[(k, p_.replace(root, '<root>')) for k, p_ in viol]), required='no fetch outside the allowed class; only library exceptions'))
+        # the hint of an inner element names a namespace that the META-SCHEMA owns: evaluated in a worker process (a failure extends the class-level meta-schema of the process)
+        xn, xf = pmap(eval_xmlns_hint, [0], chunk=1)[0]; n += xn; fails.extend(xf)
         # document-level API: the schema is built by the API itself from the instance's location hint, with the caller's allow mode
         hint_doc = os.path.join(base, 'hinted.xml')
         APIS = {'is_valid': lambda d, **kw: xmlschema.is_valid(d, **kw), 'iter_errors': lambda d, **kw: list(xmlschema.iter_errors(d, **kw)),
